@@ -311,7 +311,17 @@ func (gq *Schema) AddExtensions(e ...Extension) {
 // map-reduce
 func typeMapReducer(schema *Schema, typeMap TypeMap, objectType Type) (TypeMap, error) {
 	var err error
-	if objectType == nil || objectType.Name() == "" {
+	if objectType == nil {
+		return typeMap, nil
+	}
+	// A constructor parks its error on the type (and leaves the type unnamed
+	// when the name itself is invalid); surface it before the unnamed-type
+	// shortcut below, whatever the kind: a type referenced only as an argument
+	// or input field type is not checked anywhere else.
+	if err = objectType.Error(); err != nil {
+		return typeMap, err
+	}
+	if objectType.Name() == "" {
 		return typeMap, nil
 	}
 
